@@ -90,6 +90,25 @@ func c13Variants(rng *gen.Rng, i int) ([]c13Variant, [][]byte) {
 		add("global-pattern-thrice", inl3, []gen.Global{g}, cmdFind(wrapPS(gen.GlobalRef{Name: "gx"}, gen.GlobalRef{Name: "gx"}, gen.GlobalRef{Name: "gx"})...))
 		add("inline-subroutine+2calls", inl3, nil, cmdFind(wrapPS(gen.SubDef{Name: "sx", Body: B}, gen.SubCall{Name: "sx"}, gen.SubCall{Name: "sx"})...))
 	}
+	if subDup {
+		// referenced before a counted loop AND inside its body: the copies of an unrolled body contain calls
+		// whose target lies outside the loop
+		for ci, cl := range []gen.Loop{{Min: 2, Max: 2, Form: "exactly"}, {Min: 2, Max: -1, Form: "atleast"}, {Min: 3, Max: 4, Form: "between", Lazy: true}} {
+			if ci != i%3 {
+				continue
+			}
+			sep := gen.Lit{S: "-"}
+			a := cl
+			a.Body = gen.Seq{Items: []gen.Node{sep, grp}}
+			w := add("in-place-before-and-inside-counted-loop", -1, nil, cmdFind(wrapPS(grp, a)...))
+			b := cl
+			b.Body = gen.Seq{Items: []gen.Node{sep, gen.GlobalRef{Name: "gx"}}}
+			add("global-pattern-before-and-inside-counted-loop", w, []gen.Global{g}, cmdFind(wrapPS(gen.GlobalRef{Name: "gx"}, b)...))
+			c := cl
+			c.Body = gen.Seq{Items: []gen.Node{sep, gen.SubCall{Name: "sx"}}}
+			add("inline-subroutine-before-and-inside-counted-loop", w, nil, cmdFind(wrapPS(gen.SubDef{Name: "sx", Body: B}, c)...))
+		}
+	}
 	// inside a loop and inside an alternation
 	lp := gen.Loop{Min: 0, Max: -1, Form: "atleast"}
 	if i%2 == 1 {
@@ -121,6 +140,10 @@ func c13Variants(rng *gen.Rng, i int) ([]c13Variant, [][]byte) {
 	texts := sm.Inputs(vs[0].prog.Commands[0].Body, 6, maxLenFor(vs[0].prog, 12))
 	sm2 := gen.NewSampler(rng, vs[len(vs)-3].prog, []byte("abx "))
 	texts = append(texts, sm2.Inputs([]gen.Node{grp, grp}, 2, 12)...)
+	if subDup {
+		sep := gen.Lit{S: "-"}
+		texts = append(texts, sm2.Inputs(wrapPS(grp, sep, grp, sep, grp, sep, grp), 3, 16)...)
+	}
 	return vs, texts
 }
 
@@ -130,7 +153,7 @@ func C13(r *drv.Run) {
 	if !quick(r) {
 		nbody, nhist = 20000, 2500
 	}
-	r.Rule = "(1) capture-free bodies B (with or, in, not in, loops, nested and recursive subroutines) in contexts prefix/suffix, inside a loop, inside an alternation: B in place == {B}=s (+0..2 calls) == set g to pattern B referenced 1..3 times, all also judged by the reference matcher; (2) a three-command source sharing one definition == concatenation of its commands compiled alone; (3) recorded sequential histories of Compile/Run calls in random order over a pool of sources (including sources whose compilation fails in the parser, the regex sub-parser, the generator and the type checker) and texts, checked offline against the pure-function model: each call's result digest equals the digest the same call produced alone in a fresh worker process; (4) canonical bytecode digest (loop ids normalised) unchanged by runs and equal across recompilations. Non-trivial = variant pair with >= 1 match compared / history call whose isolated result has >= 1 match; distinct by (variant source, text) and (history, call index)."
+	r.Rule = "(1) capture-free bodies B (with or, in, not in, loops, nested and recursive subroutines) in contexts prefix/suffix, inside a loop, inside an alternation: B in place == {B}=s (+0..2 calls) == set g to pattern B referenced 1..3 times, also referenced before AND inside a counted loop (exactly 2 / at least 2 / between 3 and 4), all also judged by the reference matcher; (2) a three-command source sharing one definition == concatenation of its commands compiled alone; (3) recorded sequential histories of Compile/Run calls in random order over a pool of sources (including sources whose compilation fails in the parser, the regex sub-parser, the generator and the type checker) and texts, checked offline against the pure-function model: each call's result digest equals the digest the same call produced alone in a fresh worker process; (4) canonical bytecode digest (loop ids normalised) unchanged by runs and equal across recompilations. Non-trivial = variant pair with >= 1 match compared / history call whose isolated result has >= 1 match; distinct by (variant source, text) and (history, call index)."
 	r.Assumptions = []string{
 		"bodies are capture-free, as the property says",
 		"a body that itself declares subroutines is not duplicated textually (two declarations of one name are rejected by design)",
@@ -148,7 +171,7 @@ func C13(r *drv.Run) {
 	c13Histories(r, nhist)
 	if r.NViolations() == 0 {
 		expensiveFloor(r)
-		for _, k := range []string{"pairs_global-pattern", "pairs_inline-subroutine", "pairs_global-pattern-thrice", "pairs_global-pattern-in-loop", "concat_checked", "history_calls_checked", "reloc_StartSubroutine", "reloc_CallSubroutine", "reloc_Branch"} {
+		for _, k := range []string{"pairs_global-pattern", "pairs_inline-subroutine", "pairs_global-pattern-thrice", "pairs_global-pattern-in-loop", "pairs_global-pattern-before-and-inside-counted-loop", "pairs_inline-subroutine-before-and-inside-counted-loop", "concat_checked", "history_calls_checked", "reloc_StartSubroutine", "reloc_CallSubroutine", "reloc_Branch"} {
 			if r.Counter(k) == 0 {
 				r.Inconclusive("coverage floor: " + k + " = 0")
 			}
